@@ -8,6 +8,7 @@ Driver for the C19 correspondence.  One request per line (strings are '.'-separa
   `scan <cfg> <bol> <src> <inner>`            → events joined by `;`: `T <data> <kind> <value>` | `L <data>` | `E`
                                                  inner: `-` or comma list `<rest length>=<n>` / `<rest length>=x`
                                                  (what the tag state consumes when entered with that much text left)
+  `norm <0|1> <src>`                          → `normalizeSource keep_trailing_newline src`
   `lp <prefix> <s>`                           → `lineprefix prefix s`
   `spec <prefix> <s>`                         → `specPrefix prefix s`
   `plain <s>`                                 → `1` / `0` (`plainLines`)
@@ -100,6 +101,10 @@ def answer (line : String) : String :=
       let evs := scan cfg (innerOf tab) (src.length + 1) bol src
       if evs.isEmpty then "-" else ";".intercalate (evs.map showEv)
     | _, _, _, _ => "bad-op"
+  | ["norm", k, s] =>
+    match parseBool k, decodeStr s with
+    | some k, some s => encodeStr (normalizeSource k s)
+    | _, _ => "bad-op"
   | ["lp", p, s] =>
     match decodeStr p, decodeStr s with
     | some p, some s => encodeStr (lineprefix p s)
